@@ -4,6 +4,7 @@
    every run.  State machine: Model/Restore.v (hand model of restorer.go, corresponded). *)
 From Coq Require Import List String ZArith NArith Bool.
 Import ListNotations.
+From DV Require Import Model.Cursor Gen.CursorSrc Proofs.CursorProofs.
 From DV Require Import Model.Tree Model.Tables Model.Skeleton Model.Restore Model.RestoreChecks Proofs.RestoreProofs
      Gen.Universe Gen.RestTbl Gen.PointsTbl Gen.DataTbl.
 Local Open Scope string_scope.
@@ -84,6 +85,32 @@ Example C04_nonvacuous :
   = [(0%N, [11%N]); (1%N, [12%N]); (0%N, [13%N])].
 Proof. vm_compute. split; reflexivity. Qed.
 
+
+(* applyDecorations (decorator/restorer.go) is not transcribed by hand only: the translator renders its
+   body into a cursor program (Gen/CursorSrc.v: block-scoped locals, loops over the decorations and over
+   the line breaks inside a comment) and the program is proved to compute Model/Restore.apply_decs for
+   EVERY state, node kind, decoration name, end flag and decoration list (Proofs/CursorProofs.v: the loop
+   body is run symbolically on all 80 shapes of (decoration, end, firstLine, has Comment field, cursor at
+   line start), the loop by induction with the exact environment as invariant) *)
+Theorem C04_applyDecorations_source_computes_the_model :
+  forall s id kind name isend ds,
+    let env' := exec_list applyDecorations_src (decs_env s kind id name isend ds) in
+    e_rs env' = apply_decs s id kind name isend ds /\ e_stuck env' = false.
+Proof. exact applyDecorations_source_is_model. Qed.
+
+(* the node kinds with a Comment field: hasCommentField's list and the cases of addCommentField are the
+   model's four kinds, and every case of addCommentField has the one transcribed body (create the group
+   on first use and register it with the file's comments, then append) *)
+Definition comment_field_body : string :=
+  "if n.Comment == nil { n.Comment = &ast.CommentGroup{} r.comments = append(r.comments, n.Comment) }; n.Comment.List = append(n.Comment.List, c)".
+
+Theorem C04_comment_field_kinds_are_the_models :
+  forallb has_comment_field has_comment_field_kinds
+  && Nat.eqb (List.length (nodup string_dec has_comment_field_kinds)) 4
+  && forallb (fun c => has_comment_field (fst c) && String.eqb (snd c) comment_field_body) add_comment_field_cases
+  && Nat.eqb (List.length (nodup string_dec (map fst add_comment_field_cases))) 4 = true.
+Proof. vm_compute. reflexivity. Qed.
+
 Print Assumptions C04_points_exact.
 Print Assumptions C04_render_order_is_documented_order.
 Print Assumptions C04_funcdecl_signature_points.
@@ -91,3 +118,5 @@ Print Assumptions C04_listing_exact.
 Print Assumptions C04_node_segments.
 Print Assumptions C04_dec_segment.
 Print Assumptions C04_comments_rendered_once.
+Print Assumptions C04_applyDecorations_source_computes_the_model.
+Print Assumptions C04_comment_field_kinds_are_the_models.
